@@ -125,6 +125,13 @@ def programs(tier):
         for s_ in sw:
             for g2 in [("cx", (0, 2)), ("cx", (1, 0)), ("cz", (0, 1)), ("cx", (1, 2))]:
                 progs.append((n, layer(0) + [(g1[0], g1[1], ())] + [(s_[0], s_[1], ())] + layer(2) + [(g2[0], g2[1], ())] + layer(1)))
+    # three-qubit gates on 4 / 5 qubits, adjacent and non-adjacent triples, every control / target order: refused, or converted correctly
+    for nq, trip in ((4, (0, 1, 2)), (4, (1, 2, 3)), (4, (0, 2, 3)), (4, (0, 1, 3)), (5, (0, 2, 4)), (5, (1, 3, 4)), (5, (0, 3, 4)), (5, (2, 3, 4))):
+        for perm_ in (list(itertools.permutations(trip))[::2] if nq == 4 else [trip, trip[::-1]]):
+            for g in ("ccx", "ccz"):
+                if g == "ccz" and perm_ != tuple(sorted(perm_)):
+                    continue
+                progs.append((nq, [("h", (perm_[0],), ()), ("ry", (perm_[1],), (0.7,)), ("t", (perm_[2],), ()), (g, tuple(perm_), ()), ("rx", (perm_[2],), (0.4,))]))
     # circuits made of several quantum registers (qubit positions in the circuit differ from positions in their register)
     for regs in ([2, 1], [1, 2], [1, 1, 1]):
         for q in range(3):
